@@ -1,7 +1,8 @@
 // C08 / C19 conformance harness: an interpreter of mocking scenarios on the real MockSupport.
 // Usage: mock <script.tsv> <log.ndjson> <mode>
 //   mode rec : C++ interface, a recording non-terminating MockFailureReporter (category = first line of the message);
-//              the scenario stops at the first reported failure
+//              the scenario stops after the first step that reported a failure; the line of that step carries "reps": the
+//              categories of ALL failures the step delivered to the reporter, in order
 //   mode cpp : C++ interface, the scenario is the body of a test in a TestTestingFixture with MockSupportPlugin
 //              installed and the standard (terminating) reporter: the real verdict
 //   mode c   : the same through the C interface (mock_c() / mock_scope_c()), also inside a fixture test
@@ -13,10 +14,15 @@
 //   begin <scope> <fn> | param <scope> <name> <ENC> | outparam <scope> <name> <ty> | object <scope> <id>
 //   ret <scope> <getter> <call|support> [<default ENC>] | left | check | clear | disable | enable | ignoreothers | strict <scope>
 //   setdata <scope> <name> <ENC> [const|mut]   (objects: setDataConstObject / setDataObject) | getdata <scope> <name>
-//   installcmp <scope> <type name> <whole|first> | installcpy <scope> <type name> <plain|inv> | removeall <scope>
-//   end        (end of the test: verdict)            reset      (next execution)
-// value encodings (ENC) as in mockvalue.cpp:  I|type|neg|h3|h2|h1|h0  B|0/1  P|v/c/f|id  S|hex  M|hex  D|k|neg|q|tk|tneg|tq  O|Type|a,b
-// objects of user types are records of two ints (a, b); the comparison functions: "whole" compares both fields, "first" only a;
+//   installcmp <scope> <type name> <whole|first|never|always|less> | installcpy <scope> <type name> <plain|inv> | removeall <scope>
+//   end        (end of the test: verdict r, vcount = number of failures the test recorded, reps = their categories in order)
+//   reset      (next execution)
+// value encodings (ENC) as in mockvalue.cpp:  I|type|neg|h3|h2|h1|h0  B|0/1  P|v/c/f|id  S|hex  M|hex  D|k|neg|q|tk|tneg|tq  O|Type|a,b[|id]
+// objects of user types are records of two ints (a, b).  id (default 0) says WHICH object holds that content: 0 = an object of
+// its own (the storage of the script line, distinct from every other object), n > 0 = the n-th shared object with that content -
+// the same O|Type|a,b|n in an expectation and in an actual call passes the very same pointer on both sides.
+// the comparison functions (expected, actual): "whole" compares both fields, "first" only a, "never" / "always" answer without
+// looking, "less" says expected.a < actual.a (neither reflexive nor symmetric);
 // output objects of user types are 4 bytes; the copy functions: "plain" copies them, "inv" copies every byte inverted
 #include "vh.h"
 #include <cmath>
@@ -37,6 +43,14 @@ static char g_pool[8];
 static int g_objects[8];
 static Pair g_pairs[64];         // data-store objects: slot (a & 7) * 8 + (b & 7) holds {a, b}
 static Pair* pair_slot(int a, int b) { Pair* p = &g_pairs[(a & 7) * 8 + (b & 7)]; p->a = a; p->b = b; return p; }
+// shared parameter objects: (id, a, b) -> one object that holds {a, b} for the whole run (created while the script is parsed)
+static std::map<std::vector<int>, Pair> g_shared;
+static Pair* shared_object(int id, int a, int b)
+{
+    std::vector<int> k; k.push_back(id); k.push_back(a); k.push_back(b);
+    Pair& p = g_shared[k]; p.a = a; p.b = b;
+    return &p;
+}
 static const Pair* pair_of(const void* p) { return (p >= (const void*) &g_pairs[0] && p < (const void*) &g_pairs[64]) ? (const Pair*) p : NULL; }
 static void fn1() {}
 static void fn2() {}
@@ -89,10 +103,11 @@ static std::string bytes_json(const unsigned char* p, size_t n)
     return a + "]";
 }
 
-static std::string obj_json(const char* tn, const Pair* p)
+static std::string obj_json(const char* tn, const Pair* p, int id = -1)
 {
-    char b[64]; snprintf(b, sizeof b, ",\"c\":[%d,%d]}", p ? p->a : -1, p ? p->b : -1);
-    return std::string("{\"t\":\"obj\"") + (tn ? ",\"tn\":" + vh_jstr(tn) : std::string("")) + b;
+    char b[64]; snprintf(b, sizeof b, ",\"c\":[%d,%d]", p ? p->a : -1, p ? p->b : -1);
+    char c[32] = ""; if (id >= 0) snprintf(c, sizeof c, ",\"id\":%d", id);       // (a value of the script: which object; an observed object has none)
+    return std::string("{\"t\":\"obj\"") + (tn ? ",\"tn\":" + vh_jstr(tn) : std::string("")) + b + c + "}";
 }
 
 // ---- a parsed value (plain data; owned storage lives in g_steps, which is fully built before anything runs)
@@ -103,9 +118,10 @@ struct PV {
     char pk; int id;
     std::string bytes;
     std::string dk, tk; bool dneg, tneg; long dq, tq;
-    std::string tn; Pair pr;
+    std::string tn; Pair pr; int oid; Pair* shared;
     std::string json;
-    PV() : kind('-'), itype(0), neg(false), mag(0), b(false), pk('v'), id(0), dneg(false), tneg(false), dq(0), tq(0), json("{\"t\":\"none\"}") { pr.a = 0; pr.b = 0; }
+    PV() : kind('-'), itype(0), neg(false), mag(0), b(false), pk('v'), id(0), dneg(false), tneg(false), dq(0), tq(0), oid(0), shared(NULL), json("{\"t\":\"none\"}") { pr.a = 0; pr.b = 0; }
+    const void* object() const { return shared ? (const void*) shared : (const void*) &pr; }     // the parameter object this value stands for
     uint64_t pattern() const { return neg ? (uint64_t) 0 - mag : mag; }
     double dval() const { return xreal_value(dk, dneg, dq); }
     double dtol() const { return xreal_value(tk, tneg, tq); }
@@ -147,11 +163,14 @@ static bool parse_value(const std::string& enc, PV& v)
         v.json = "{\"t\":\"double\",\"v\":" + xreal_json(v.dk, v.dneg, v.dq) + ",\"tol\":" + (v.tk == "dflt" ? xreal_json("fin", false, DEFAULT_TOL_Q) : xreal_json(v.tk, v.tneg, v.tq)) + "}";
         return true;
     }
-    if (f[0] == "O" && f.size() == 3) {
+    if (f[0] == "O" && (f.size() == 3 || f.size() == 4)) {
         std::vector<std::string> c = vh_split(f[2], ',');
         if (c.size() != 2) return false;
         v.tn = f[1]; v.pr.a = atoi(c[0].c_str()); v.pr.b = atoi(c[1].c_str());
-        v.json = obj_json(v.tn.c_str(), &v.pr);
+        v.oid = f.size() == 4 ? atoi(f[3].c_str()) : 0;
+        if (v.oid < 0) return false;
+        v.shared = v.oid ? shared_object(v.oid, v.pr.a, v.pr.b) : NULL;
+        v.json = obj_json(v.tn.c_str(), &v.pr, v.oid);
         return true;
     }
     return false;
@@ -215,18 +234,31 @@ static std::string category_of(const std::string& text)
 extern "C" {
 static int c_equal_whole(const void* x, const void* y) { return ((const Pair*) x)->a == ((const Pair*) y)->a && ((const Pair*) x)->b == ((const Pair*) y)->b; }
 static int c_equal_first(const void* x, const void* y) { return ((const Pair*) x)->a == ((const Pair*) y)->a; }
+static int c_equal_never(const void*, const void*) { return 0; }
+static int c_equal_always(const void*, const void*) { return 1; }
+static int c_equal_less(const void* x, const void* y) { return ((const Pair*) x)->a < ((const Pair*) y)->a; }
 static const char* c_string_whole(const void* x) { static char buf[48]; snprintf(buf, sizeof buf, "(%d,%d)", ((const Pair*) x)->a, ((const Pair*) x)->b); return buf; }
 static const char* c_string_first(const void* x) { static char buf[48]; snprintf(buf, sizeof buf, "(%d,_)", ((const Pair*) x)->a); return buf; }
+static const char* c_string_never(const void* x) { static char buf[48]; snprintf(buf, sizeof buf, "never(%d,%d)", ((const Pair*) x)->a, ((const Pair*) x)->b); return buf; }
+static const char* c_string_always(const void* x) { static char buf[48]; snprintf(buf, sizeof buf, "always(%d,%d)", ((const Pair*) x)->a, ((const Pair*) x)->b); return buf; }
+static const char* c_string_less(const void* x) { static char buf[48]; snprintf(buf, sizeof buf, "(%d<,_)", ((const Pair*) x)->a); return buf; }
 static void c_copy_plain(void* out, const void* in) { memcpy(out, in, 4); }
 static void c_copy_inv(void* out, const void* in) { for (int i = 0; i < 4; i++) ((unsigned char*) out)[i] = (unsigned char) ~((const unsigned char*) in)[i]; }
 }
+// the comparison functions by mode; the C++ comparator of a mode asks the very same C function, every time it is asked
+static const struct CmpMode { const char* name; int (*equal)(const void*, const void*); const char* (*str)(const void*); } CMP_MODES[] = {
+    {"whole", c_equal_whole, c_string_whole}, {"first", c_equal_first, c_string_first}, {"never", c_equal_never, c_string_never},
+    {"always", c_equal_always, c_string_always}, {"less", c_equal_less, c_string_less},
+};
+static const int N_CMP_MODES = (int) (sizeof(CMP_MODES) / sizeof(CMP_MODES[0]));
+static int cmp_mode_index(const std::string& md) { for (int i = 0; i < N_CMP_MODES; i++) if (md == CMP_MODES[i].name) return i; return -1; }
 class ModeComparator : public MockNamedValueComparator
 {
-    bool whole_;
+    int mode_;
 public:
-    explicit ModeComparator(bool whole) : whole_(whole) {}
-    bool isEqual(const void* x, const void* y) CPPUTEST_OVERRIDE { return (whole_ ? c_equal_whole(x, y) : c_equal_first(x, y)) != 0; }
-    SimpleString valueToString(const void* x) CPPUTEST_OVERRIDE { return SimpleString(whole_ ? c_string_whole(x) : c_string_first(x)); }
+    explicit ModeComparator(int mode) : mode_(mode) {}
+    bool isEqual(const void* x, const void* y) CPPUTEST_OVERRIDE { return CMP_MODES[mode_].equal(x, y) != 0; }
+    SimpleString valueToString(const void* x) CPPUTEST_OVERRIDE { return SimpleString(CMP_MODES[mode_].str(x)); }
 };
 class ModeCopier : public MockNamedValueCopier
 {
@@ -235,7 +267,7 @@ public:
     explicit ModeCopier(bool plain) : plain_(plain) {}
     void copy(void* out, const void* in) CPPUTEST_OVERRIDE { if (plain_) c_copy_plain(out, in); else c_copy_inv(out, in); }
 };
-static ModeComparator g_cmp_whole(true), g_cmp_first(false);
+static ModeComparator g_cmp[] = { ModeComparator(0), ModeComparator(1), ModeComparator(2), ModeComparator(3), ModeComparator(4) };
 static ModeCopier g_cpy_plain(true), g_cpy_inv(false);
 
 // ---- per-scope interpreter state
@@ -280,7 +312,7 @@ static void cxx_expect_param(MockExpectedCall& e, const std::string& name, PV& v
         case 'S': e.withParameter(name.c_str(), v.bytes.c_str()); break;
         case 'M': e.withParameter(name.c_str(), (const unsigned char*) v.bytes.data(), v.bytes.size()); break;
         case 'D': if (v.tk == "dflt") e.withParameter(name.c_str(), v.dval()); else e.withParameter(name.c_str(), v.dval(), v.dtol()); break;
-        case 'O': e.withParameterOfType(v.tn.c_str(), name.c_str(), &v.pr); break;
+        case 'O': e.withParameterOfType(v.tn.c_str(), name.c_str(), v.object()); break;
     }
 }
 static void cxx_expect_return(MockExpectedCall& e, PV& v)
@@ -328,7 +360,7 @@ static void cxx_actual_param(MockActualCall& a, const std::string& name, PV& v)
         case 'S': a.withParameter(name.c_str(), v.bytes.c_str()); break;
         case 'M': a.withParameter(name.c_str(), (const unsigned char*) v.bytes.data(), v.bytes.size()); break;
         case 'D': a.withParameter(name.c_str(), v.dval()); break;
-        case 'O': a.withParameterOfType(v.tn.c_str(), name.c_str(), &v.pr); break;
+        case 'O': a.withParameterOfType(v.tn.c_str(), name.c_str(), v.object()); break;
     }
 }
 
@@ -355,7 +387,7 @@ static void c_expect_param(MockExpectedCall_c* e, const std::string& name, PV& v
         case 'S': e->withStringParameters(name.c_str(), v.bytes.c_str()); break;
         case 'M': e->withMemoryBufferParameter(name.c_str(), (const unsigned char*) v.bytes.data(), v.bytes.size()); break;
         case 'D': if (v.tk == "dflt") e->withDoubleParameters(name.c_str(), v.dval()); else e->withDoubleParametersAndTolerance(name.c_str(), v.dval(), v.dtol()); break;
-        case 'O': e->withParameterOfType(v.tn.c_str(), name.c_str(), &v.pr); break;
+        case 'O': e->withParameterOfType(v.tn.c_str(), name.c_str(), v.object()); break;
     }
 }
 static void c_expect_return(MockExpectedCall_c* e, PV& v)
@@ -403,7 +435,7 @@ static void c_actual_param(MockActualCall_c* a, const std::string& name, PV& v)
         case 'S': a->withStringParameters(name.c_str(), v.bytes.c_str()); break;
         case 'M': a->withMemoryBufferParameter(name.c_str(), (const unsigned char*) v.bytes.data(), v.bytes.size()); break;
         case 'D': a->withDoubleParameters(name.c_str(), v.dval()); break;
-        case 'O': a->withParameterOfType(v.tn.c_str(), name.c_str(), &v.pr); break;
+        case 'O': a->withParameterOfType(v.tn.c_str(), name.c_str(), v.object()); break;
     }
 }
 
@@ -615,9 +647,9 @@ static void exec_step(Step& st)
     else if (op == "ignoreothers") { if (!is_c()) mock().ignoreOtherCalls(); else mock_c()->ignoreOtherCalls(); }
     else if (op == "strict") { if (!is_c()) cxx(st.scope).strictOrder(); else cc(st.scope)->strictOrder(); }
     else if (op == "installcmp") {
-        bool whole = st.ty == "whole";
-        if (!is_c()) cxx(st.scope).installComparator(st.name.c_str(), whole ? g_cmp_whole : g_cmp_first);
-        else cc(st.scope)->installComparator(st.name.c_str(), whole ? c_equal_whole : c_equal_first, whole ? c_string_whole : c_string_first);
+        int md = cmp_mode_index(st.ty);
+        if (!is_c()) cxx(st.scope).installComparator(st.name.c_str(), g_cmp[md]);
+        else cc(st.scope)->installComparator(st.name.c_str(), CMP_MODES[md].equal, CMP_MODES[md].str);
     } else if (op == "installcpy") {
         bool plain = st.ty == "plain";
         if (!is_c()) cxx(st.scope).installCopier(st.name.c_str(), plain ? g_cpy_plain : g_cpy_inv);
@@ -688,9 +720,17 @@ static std::string message_of(const std::string& text)
     while (!t.empty() && (t[t.size() - 1] == '\n' || t[t.size() - 1] == ' ')) t.erase(t.size() - 1);
     return t;
 }
-static void log_line(const Step& st, const std::string& r, const std::string& text = "")
+// categories of a list of failure texts as a JSON array; "?" for a text of unknown shape
+static std::string reps_json(const std::vector<std::string>& texts)
+{
+    std::string a = "[";
+    for (size_t i = 0; i < texts.size(); i++) { std::string c = category_of(texts[i]); a += std::string(i ? "," : "") + vh_jstr(c.empty() ? "?" : c); }
+    return a + "]";
+}
+static void log_line(const Step& st, const std::string& r, const std::string& text = "", const std::string& reps = "")
 {
     std::string extra = r == "ok" ? st.obs : (text.empty() ? std::string("") : ",\"text\":" + vh_jstr(message_of(text)));
+    if (!reps.empty()) extra += ",\"reps\":" + reps;
     fprintf(g_out, "{\"op\":%s%s,\"r\":%s%s}\n", vh_jstr(st.op).c_str(), st.echo.c_str(), vh_jstr(r).c_str(), extra.c_str());
 }
 
@@ -707,6 +747,23 @@ static std::string first_failure_text(const std::string& out)
     if (p == std::string::npos) return "";
     size_t q = out.find('\n', p);
     return q == std::string::npos ? "" : out.substr(q + 1);
+}
+
+// the texts of all failures the fixture's test recorded, in order
+static std::vector<std::string> all_failure_texts(const std::string& out)
+{
+    static const char* HEAD = "error: Failure in TEST(";
+    std::vector<std::string> res;
+    size_t p = out.find(HEAD);
+    while (p != std::string::npos) {
+        size_t q = out.find('\n', p);
+        if (q == std::string::npos) break;
+        size_t nx = out.find(HEAD, q);
+        size_t e = nx == std::string::npos ? out.size() : out.rfind('\n', nx);     // the next header line starts with its file:line
+        res.push_back(out.substr(q + 1, (e == std::string::npos || e < q + 1) ? std::string::npos : e - q - 1));
+        p = nx;
+    }
+    return res;
 }
 
 static void run_execution()
@@ -727,18 +784,19 @@ static void run_execution()
                 failed = true;
                 why = category_of(g_rec.msgs[0]);
                 if (why.empty()) { fprintf(g_out, "{\"op\":%s,\"repbad\":%s}\n", vh_jstr(st.op).c_str(), vh_jstr(g_rec.msgs[0].substr(0, 200)).c_str()); continue; }
-                log_line(st, why, g_rec.msgs[0]);
+                log_line(st, why, g_rec.msgs[0], reps_json(g_rec.msgs));
             } else log_line(st, "ok");
         }
         if (g_end < g_steps.size()) {
             size_t count = failed ? 1 : 0;
+            std::string reps = failed ? "[" + vh_jstr(why) + "]" : std::string("[]");
             if (!failed) {
                 g_rec.msgs.clear();
                 mock().checkExpectations();
-                if (!g_rec.msgs.empty()) { failed = true; count = g_rec.msgs.size(); why = category_of(g_rec.msgs[0]); }
+                if (!g_rec.msgs.empty()) { failed = true; count = g_rec.msgs.size(); why = category_of(g_rec.msgs[0]); reps = reps_json(g_rec.msgs); }
             }
             if (failed && why.empty()) fprintf(g_out, "{\"op\":\"end\",\"repbad\":%s}\n", vh_jstr(g_rec.msgs.empty() ? "" : g_rec.msgs[0].substr(0, 200)).c_str());
-            else fprintf(g_out, "{\"op\":\"end\",\"mode\":\"rec\",\"r\":%s,\"vcount\":%lu}\n", vh_jstr(failed ? why : "ok").c_str(), (unsigned long) count);
+            else fprintf(g_out, "{\"op\":\"end\",\"mode\":\"rec\",\"r\":%s,\"vcount\":%lu,\"reps\":%s}\n", vh_jstr(failed ? why : "ok").c_str(), (unsigned long) count, reps.c_str());
             for (size_t i = g_end + 1; i < g_steps.size(); i++) log_line(g_steps[i], "skipped");
         }
         mock().clear();
@@ -771,8 +829,8 @@ static void run_execution()
     }
     if (g_end < g_steps.size()) {
         if (failures && why.empty()) fprintf(g_out, "{\"op\":\"end\",\"repbad\":%s}\n", vh_jstr(text.substr(0, 200)).c_str());
-        else fprintf(g_out, "{\"op\":\"end\",\"mode\":%s,\"r\":%s,\"vcount\":%lu,\"text\":%s}\n", vh_jstr(g_mode).c_str(), vh_jstr(why).c_str(), (unsigned long) failures,
-                     vh_jstr(message_of(text)).c_str());
+        else fprintf(g_out, "{\"op\":\"end\",\"mode\":%s,\"r\":%s,\"vcount\":%lu,\"reps\":%s,\"text\":%s}\n", vh_jstr(g_mode).c_str(), vh_jstr(why).c_str(), (unsigned long) failures,
+                     reps_json(all_failure_texts(output)).c_str(), vh_jstr(message_of(text)).c_str());
         for (size_t i = g_end + 1; i < g_steps.size(); i++) log_line(g_steps[i], "skipped");
     }
     // whatever state the test left behind (the plugin has cleared the mock)
@@ -830,7 +888,7 @@ static bool parse_step(const std::vector<std::string>& f, Step& st)
         e = ",\"s\":" + vh_jstr(st.scope) + ",\"k\":" + vh_jstr(st.name) + ",\"v\":" + st.v.json + ",\"how\":" + vh_jstr(st.ty);
     } else if ((op == "installcmp" || op == "installcpy") && f.size() >= 4) {
         st.scope = f[1]; st.name = f[2]; st.ty = f[3];
-        if (op == "installcmp" ? (st.ty != "whole" && st.ty != "first") : (st.ty != "plain" && st.ty != "inv")) return false;
+        if (op == "installcmp" ? cmp_mode_index(st.ty) < 0 : (st.ty != "plain" && st.ty != "inv")) return false;
         e = ",\"s\":" + vh_jstr(st.scope) + ",\"tn\":" + vh_jstr(st.name) + ",\"md\":" + vh_jstr(st.ty);
     } else if (op == "removeall" && f.size() >= 2) { st.scope = f[1]; e = ",\"s\":" + vh_jstr(st.scope);
     } else if (op == "getdata" && f.size() >= 3) { st.scope = f[1]; st.name = f[2]; e = ",\"s\":" + vh_jstr(st.scope) + ",\"k\":" + vh_jstr(st.name); }
